@@ -744,7 +744,7 @@ def run(res):
         pieces, ref, k = owned_clash_history(rng, i)
         cases.append(("compile-reject-owned", pieces, ref, k))
     # pieces rejected because a limit of the compiler is exceeded, at every position
-    for i in range(48 if tier == "quick" else 600):
+    for i in range(48 if tier == "quick" else 320):
         pieces, ref, k = limit_reject_history(rng, i, tier)
         cases.append(("compile-reject-limit", pieces, ref, k))
     # corpus: the design witnesses and the witnesses of repaired defects
@@ -831,7 +831,15 @@ def run(res):
                    "thread being waited for, a deep chain of frames, a loop / switch / literal with pending operands - followed by pieces that use the very "
                    "same modules, functions, callbacks and threads again with the fuse off, compared with the history that has the piece without its "
                    "failing statement; threads (spawn / f.spawn, threads of threads) that are in the middle of a long loop - or blocked, then released and running - "
-                   "when their piece ends and are waited for by a later piece, under a context with a Done channel that is never cancelled during the case; plus 1100 one-expression pieces (stack growth). "
+                   "when their piece ends and are waited for by a later piece, under a context with a Done channel that is never cancelled during the case; "
+                   "rejected pieces whose rejection concerns a name that EARLIER pieces own (a function, a variable, a constant of the program, the host's globals): "
+                   "function redefinition, := / var / const of an existing name, multi-assignment, assignment to a constant or a function, duplicate parameters - alone, "
+                   "before and after fresh declarations - followed by pieces that call, read, update, close over and try to redeclare the owned names; pieces rejected "
+                   "because a LIMIT is exceeded (parameters, arguments of calls / pipes, items of list / set / map literals, constants of a nested function filled by "
+                   "literals that are each below the literal limit; thorough: locals) at every position.  For these two families the harness reports what the compiler kept "
+                   "of the piece (instructions, symbols, code objects, functions opened in the main code and not closed, size of the main constant table): pieces that "
+                   "kept nothing but plain loads are judged strictly, pieces that kept something but nothing that can make the compiler refuse later input must not "
+                   "make it refuse a later piece that the history without them accepts; plus 1100 one-expression pieces (stack growth). "
                    "Non-trivial = distinct histories.")
     cov["samples"] = [{"kind": cases[1][0], "pieces": cases[1][1]}, {"impl": outs[0][:300]}]
     cov["input_distribution"] = hist
